@@ -3,6 +3,7 @@ C02 - The verification level alone decides which failed validations reject.
 Property theorems only; model in `Model/C02.lean`, stage lemmas in `Lemmas/C02.lean`.
 -/
 import NotationModel.Lemmas.C02
+import NotationModel.Generated.SrcLevels
 set_option linter.unusedSimpArgs false
 set_option linter.unusedVariables false
 set_option maxRecDepth 4000
@@ -564,5 +565,136 @@ example : (run { sampleAccepted with level := "strict" }).accepted = false := by
 /-- `Holds` is not trivially true: claiming acceptance of the strict run is refuted -/
 example : Holds { sampleAccepted with level := "strict" }
     { (run { sampleAccepted with level := "strict" }) with accepted := true } = false := by decide
+
+/-! ### tie to the translated source -/
+
+namespace Tie
+open NotationModel.Src NotationModel.Src.trustpolicy
+
+/-- the fact tables and the translated declarations say the same -/
+theorem levels_agree : Facts.levels = VerificationLevels.map (fun l => (l.Name, l.Enforcement)) := by decide
+theorem types_agree : Facts.validationTypes = ValidationTypes := by decide
+theorem actions_agree : Facts.validationActions = ValidationActions := by decide
+
+/-- result shape: the level (if any) and whether an error is returned -/
+def shape (r : Option VerificationLevel × Option GoLite.Err) : Option (String × Enf) × Bool :=
+  (r.1.map (fun l => (l.Name, l.Enforcement)), r.2.isSome)
+
+def ofModel : Except String (String × Enf) → Option (String × Enf) × Bool
+  | .ok p => (some p, false)
+  | .error _ => (none, true)
+
+theorem foldl_error (e : String) (l : List (String × String)) :
+    l.foldl applyOverride (.error e) = .error e := by
+  induction l with
+  | nil => rfl
+  | cons a l ih => simpa [List.foldl, applyOverride] using ih
+
+theorem foldE_foldl (l : List (String × String)) (t : Enf) :
+    (match GoLite.foldE (fun t kv => applyOverride (.ok t) kv) l t with
+      | .ok t' => Except.ok t'
+      | .error (_, e) => Except.error e) = l.foldl applyOverride (.ok t) := by
+  induction l generalizing t with
+  | nil => simp [GoLite.foldE]
+  | cons a l ih =>
+    simp only [GoLite.foldE, List.foldl]
+    cases h : applyOverride (.ok t) a with
+    | ok t' => simpa using ih t'
+    | error e => simp [foldl_error]
+
+theorem findLevel_src (lvl : String) :
+    findLevel lvl = ((VerificationLevels.filter (fun l => l.Name == lvl)).getLast?).map (fun l => (l.Name, l.Enforcement)) := by
+  unfold findLevel
+  rw [levels_agree, List.filter_map, List.getLast?_map]
+  rfl
+
+/-- the loop state of the override loop, seen from the model: the enforcement map built so far -/
+abbrev absSt (t : Enf) : Option (Option VerificationLevel × Option GoLite.Err) × VerificationLevel :=
+  (none, { Name := "custom", Enforcement := t })
+abbrev stopSt (t : Enf) (_e : String) : Option (Option VerificationLevel × Option GoLite.Err) × VerificationLevel :=
+  (some (none, some (GoLite.errorf "")), { Name := "custom", Enforcement := t })
+
+/-- TIE (translated source): `SignatureVerification.GetVerificationLevel`, translated from
+verifier/trustpolicy/trustpolicy.go on every run (`Generated/SrcLevels.lean`, together with the
+level tables and the lists of types and actions), returns for EVERY level name and override map
+exactly the level and enforcement map of the hand-written `effective`, and an error exactly when
+`effective` fails. (Override maps are association lists: the statement holds for every iteration
+order Go may choose.) -/
+theorem source_GetVerificationLevel_refines_model (sv : SignatureVerification) : shape (GetVerificationLevel sv) = ofModel (effective sv.VerificationLevel sv.Override) := by
+  unfold GetVerificationLevel
+  simp only [Id.run]
+  simp only [GoLite.forIn_lastMatch, GoLite.forIn_firstEq, pure_bind]
+  unfold effective
+  rw [findLevel_src]
+  by_cases h0 : sv.VerificationLevel = ""
+  · simp [h0, shape, ofModel, GoLite.idPure]
+  · have hne : (sv.VerificationLevel == "") = false := by simpa using h0
+    simp only [hne, Bool.false_eq_true, if_false]
+    cases hb : (VerificationLevels.filter (fun l => l.Name == sv.VerificationLevel)).getLast? with
+    | none => simp [shape, ofModel, GoLite.idPure]
+    | some b =>
+      have hmem : b ∈ VerificationLevels.filter (fun l => l.Name == sv.VerificationLevel) := List.mem_of_getLast? hb
+      simp only [Option.isNone_some, Bool.false_eq_true, if_false, Option.map_some]
+      by_cases hov : sv.Override = []
+      · simp [hov, shape, ofModel, GoLite.idPure]
+      · have hlen : (GoLite.len sv.Override == 0) = false := by
+          cases h : sv.Override with
+          | nil => exact absurd h hov
+          | cons a l => simp [GoLite.len]; omega
+        have hemp : sv.Override.isEmpty = false := by simp [hov]
+        simp only [hlen, hemp, Bool.false_eq_true, if_false]
+        have hb4 : b = LevelStrict ∨ b = LevelPermissive ∨ b = LevelAudit ∨ b = LevelSkip := by
+          have := (List.mem_filter.1 hmem).1
+          simpa [VerificationLevels] using this
+        have hcopy : (forIn (GoLite.deref (some b)).Enforcement ({ Name := "custom", Enforcement := [] } : VerificationLevel)
+              (fun x __s => (pure (ForInStep.yield { Name := __s.Name, Enforcement := __s.Enforcement.set x.fst x.snd }) : Id _))) =
+            pure ({ Name := "custom", Enforcement := b.Enforcement } : VerificationLevel) := by
+          rcases hb4 with rfl | rfl | rfl | rfl <;> rfl
+        rw [hcopy]
+        simp only [pure_bind]
+        rw [GoLite.forIn_eq_foldE' _ (fun t kv => applyOverride (.ok t) kv) absSt stopSt ?h _ _ b.Enforcement rfl]
+        case h =>
+          intro x t
+          have hT : ValidationTypes = Facts.validationTypes := types_agree.symm
+          have hA : ValidationActions = Facts.validationActions := actions_agree.symm
+          have hI : TypeIntegrity = Facts.typeIntegrity := by decide
+          have hR : TypeRevocation = Facts.typeRevocation := by decide
+          have hS : ActionSkip = Facts.actionSkip := by decide
+          rcases x with ⟨k, v⟩
+          simp only [hT, hA, hI, hR, hS, applyOverride, Enf.set, GoLite.Map.set]
+          by_cases c1 : k ∈ Facts.validationTypes
+          · by_cases c2 : v ∈ Facts.validationActions
+            · simp [Facts.validationTypes] at c1
+              simp [Facts.validationActions] at c2
+              rcases c1 with rfl | rfl | rfl | rfl | rfl <;> rcases c2 with rfl | rfl | rfl <;>
+                simp [Facts.validationTypes, Facts.validationActions, Facts.typeIntegrity, Facts.typeRevocation,
+                  Facts.actionSkip, GoLite.errorf, absSt, stopSt] <;> (try rfl)
+            · have c2' := c2
+              simp [Facts.validationActions] at c2'
+              simp [Facts.validationTypes] at c1
+              rcases c1 with rfl | rfl | rfl | rfl | rfl <;>
+                simp [Facts.validationTypes, Facts.validationActions, Facts.typeIntegrity, Facts.typeRevocation,
+                  Facts.actionSkip, GoLite.errorf, absSt, stopSt, c2, c2'] <;> (try rfl)
+          · have c1' := c1
+            simp [Facts.validationTypes] at c1'
+            simp [Facts.validationTypes, Facts.validationActions, Facts.typeIntegrity, Facts.typeRevocation,
+                  Facts.actionSkip, GoLite.errorf, absSt, stopSt, c1, c1'] <;> (try rfl)
+        have hskip : (some b == some LevelSkip) = (b.Name == "skip") := by
+          rcases hb4 with rfl | rfl | rfl | rfl <;> decide
+        rw [hskip, ← foldE_foldl]
+        by_cases hs : (b.Name == "skip") = true
+        · simp [hs, shape, ofModel, GoLite.idPure]
+        · simp only [hs, Bool.false_eq_true, if_false, pure_bind]
+          cases hf : GoLite.foldE (fun t kv => applyOverride (Except.ok t) kv) sv.Override b.Enforcement with
+          | ok t' => simp [shape, ofModel, GoLite.idPure, absSt]
+          | error p => obtain ⟨t', e⟩ := p; simp [shape, ofModel, GoLite.idPure, stopSt]
+
+/-- non-vacuity: the translated function on a customised level -/
+example : (GetVerificationLevel { VerificationLevel := "strict", Override := [("revocation", "skip")] }).1.map (·.Enforcement) =
+    some [("integrity", "enforce"), ("authenticity", "enforce"), ("authenticTimestamp", "enforce"),
+          ("expiry", "enforce"), ("revocation", "skip")] := by decide
+example : (GetVerificationLevel { VerificationLevel := "audit", Override := [("integrity", "log")] }).2.isSome = true := by decide
+
+end Tie
 
 end NotationModel.C02
